@@ -114,6 +114,88 @@ static void dumpValues(Tree& tree){
     for(auto& kvp : r) std::cout << "V R " << kvp.first << " " << kvp.second << "\n";
 }
 
+// a plain group (independent of the library's containers) for the per-group list builders
+struct VecGroup {
+    std::vector<long> cells;
+    long getNbCells() const { return (long)cells.size(); }
+    long getNbLeaves() const { return (long)cells.size(); }
+    long getCellSpacialIndex(long i) const { return cells[i]; }
+    long getLeafSpacialIndex(long i) const { return cells[i]; }
+    long getStartingSpacialIndex() const { return cells.front(); }
+    long getEndingSpacialIndex() const { return cells.back(); }
+    std::optional<long> getElementFromSpacialIndex(long idx) const {
+        for(size_t k = 0 ; k < cells.size() ; ++k) if(cells[k] == idx) return std::optional<long>((long)k);
+        return std::nullopt;
+    }
+};
+
+template <class V>
+static void printInter(const char* tag, const V& v){
+    std::cout << tag << " " << v.size();
+    for(const auto& x : v) std::cout << " " << x.indexTarget << ":" << x.indexSrc << ":" << x.globalTargetPos << ":" << x.arrayIndexSrc;
+    std::cout << "\n";
+}
+
+static void idxCommand(const Config& config, const std::vector<std::string>& ts){
+    SpaceIndex sp(config);
+    const std::string& sub = ts[1];
+    auto L = [&](size_t k){ return std::stol(ts[k]); };
+    if(sub == "enc"){           // idx enc <c0..cD-1>
+        std::array<long, Dim> c; for(long d = 0 ; d < Dim ; ++d) c[d] = L(2 + d);
+        std::cout << "I enc " << sp.getIndexFromBoxPos(c) << "\n";
+    }
+    else if(sub == "dec"){      // idx dec <i>
+        auto c = sp.getBoxPosFromIndex(L(2));
+        std::cout << "I dec"; for(long d = 0 ; d < Dim ; ++d) std::cout << " " << c[d]; std::cout << "\n";
+    }
+    else if(sub == "parent"){ std::cout << "I parent " << sp.getParentIndex(L(2)) << "\n"; }
+    else if(sub == "childcode"){ std::cout << "I childcode " << sp.childPositionFromParent(L(2)) << "\n"; }
+    else if(sub == "child"){ std::cout << "I child " << sp.getChildIndexFromParent(L(2), L(3)) << "\n"; }
+    else if(sub == "upper"){ std::cout << "I upper " << sp.getUpperBound(L(2)) << "\n"; }
+    else if(sub == "ilist"){    // idx ilist <level> <i>
+        auto v = sp.getInteractionListForIndex(L(3), L(2));
+        std::cout << "I ilist " << v.size(); for(auto x : v) std::cout << " " << x; std::cout << "\n";
+    }
+    else if(sub == "nlist"){    // idx nlist <level> <i> <upperExclusion>
+        auto v = sp.getNeighborListForIndex(L(3), L(2), L(4) != 0);
+        std::cout << "I nlist " << v.size(); for(auto x : v) std::cout << " " << x; std::cout << "\n";
+    }
+    else if(sub == "code7"){
+        std::array<long, Dim> c; for(long d = 0 ; d < Dim ; ++d) c[d] = L(2 + d);
+        std::cout << "I code7 " << SpaceIndex::getInteractionIndexFromRelativePos(c) << "\n";
+    }
+    else if(sub == "dec7"){
+        auto c = SpaceIndex::getRelativePosFromInteractionIndex(L(2));
+        std::cout << "I dec7"; for(long d = 0 ; d < Dim ; ++d) std::cout << " " << c[d]; std::cout << "\n";
+    }
+    else if(sub == "code3"){
+        std::array<long, Dim> c; for(long d = 0 ; d < Dim ; ++d) c[d] = L(2 + d);
+        std::cout << "I code3 " << SpaceIndex::getNeighborIndexFromRelativePos(c) << "\n";
+    }
+    else if(sub == "dec3"){
+        auto c = SpaceIndex::getRelativePosFromNeighborIndex(L(2));
+        std::cout << "I dec3"; for(long d = 0 ; d < Dim ; ++d) std::cout << " " << c[d]; std::cout << "\n";
+    }
+    else if(sub == "iblock"){   // idx iblock <level> <testSelf> <cells...>
+        VecGroup g; for(size_t k = 4 ; k < ts.size() ; ++k) g.cells.push_back(L(k));
+        auto pr = sp.getInteractionListForBlock(g, L(2), L(3) != 0);
+        printInter("I iblock-in", pr.first); printInter("I iblock-ex", pr.second);
+    }
+    else if(sub == "nblock"){   // idx nblock <level> <upperExclusion> <testSelf> <cells...>
+        VecGroup g; for(size_t k = 5 ; k < ts.size() ; ++k) g.cells.push_back(L(k));
+        auto pr = sp.getNeighborListForBlock(g, L(2), L(3) != 0, L(4) != 0);
+        printInter("I nblock-in", pr.first); printInter("I nblock-ex", pr.second);
+    }
+    else if(sub == "sblock"){   // idx sblock <cells...>
+        VecGroup g; for(size_t k = 2 ; k < ts.size() ; ++k) g.cells.push_back(L(k));
+        printInter("I sblock", sp.getSelfListForBlock(g));
+    }
+    else if(sub == "consts"){
+        std::cout << "I consts " << SpaceIndex::getNbChildrenPerCell() << " " << SpaceIndex::getNbInteractionsPerCell() << " " << SpaceIndex::getNbNeighborsPerLeaf() << "\n";
+    }
+    else std::cout << "bad-op idx " << sub << "\n";
+}
+
 static void flushLog(){
     for(auto& s : RecLog::lines()) std::cout << s << "\n";
     for(auto& s : RecLog::errors()) std::cout << s << "\n";
@@ -159,6 +241,9 @@ int main(){
                     cs.positions[i][d] = (RealType(std::stol(ts[2 + i*Dim + d])) + RealType(0.5)) * w;
                 }
             }
+        }
+        else if(op == "idx"){
+            idxCommand(*cs.config, ts);
         }
         else if(op == "mark"){
             std::cout << "M " << (ts.size() > 1 ? ts[1] : "") << "\n";
